@@ -435,28 +435,13 @@ def r9(ctx):
     """get_signing_key and prevalidate read the credential, the session token and the request timestamp through these
     accessors; an accessor that answers from a condition on the value (`if token.is_empty() { None }`) changes what the
     key provider is asked for (a present-but-empty token becomes `no token`) without touching either caller."""
-    VIEW = r"Option::<T>::(as_deref|as_ref|map|copied|cloned)$|String::as_str$|Deref::deref$|AsRef::as_ref$|Borrow::borrow$|Clone::clone$|Copy"
-    for nm in ACCESSORS:
-        a = ctx.fn("auth::SigV4Authenticator::" + nm)
-        ctx.count()
-        probs = []
-        for bi in sorted(a.live_blocks()):
-            t = a.term(bi)
-            if t["k"] != "switch":
-                continue
-            c = a.cond_of_switch(bi)
-            if not c or c["kind"] != "discr":
-                probs.append("its answer depends on a condition (%s)" % ((c or {}).get("callee", (c or {}).get("kind", "?")).split("::")[-1]))
-        s = a.slice([0])
-        frs = {fs for _, fs in s.fieldreads}
-        if not frs or {fs[0] for fs in frs} != {nm}:
-            probs.append("it reads field(s) %s" % sorted(frs))
-        oth = [c for c in s.callee_names() if not re.search(VIEW, c)]
-        if oth:
-            probs.append("the value passes through %s" % [c.split("::")[-1] for c in oth][:3])
-        if s.const_values():
-            probs.append("a constant %r can be returned" % s.const_values()[:2])
-        if probs:
-            yield VIOL("C03-R9", "accessor/%s/as-stored" % nm, "SigV4Authenticator::%s does not hand back self.%s as stored: %s" % (nm, nm, "; ".join(probs)), where=loc(a.j["span"]))
-        else:
-            yield PASS("C03-R9", "accessor/%s/as-stored" % nm, "returns a view of self.%s, no condition" % nm, [loc(a.j["span"])])
+    for ty, names in (("auth::SigV4Authenticator", ACCESSORS), ("signing_key::GetSigningKeyRequest", ("access_key", "session_token", "request_date", "region", "service"))):
+        for nm in names:
+            a = ctx.fn("%s::%s" % (ty, nm))
+            ctx.count()
+            probs = accessor_problems(a, nm)
+            key = "accessor/%s/as-stored" % nm if ty.startswith("auth::") else "accessor/GetSigningKeyRequest::%s/as-stored" % nm
+            if probs:
+                yield VIOL("C03-R9", key, "%s::%s does not hand back self.%s as stored: %s" % (ty.split("::")[-1], nm, nm, "; ".join(probs)), where=loc(a.j["span"]))
+            else:
+                yield PASS("C03-R9", key, "returns a view of self.%s, no condition" % nm, [loc(a.j["span"])])
